@@ -589,3 +589,74 @@ Print Assumptions dkl_wishart_is_textbook.
 Example dkl_wishart_self_zero :
   forall a dim LD lgc G PS, dkl_wishart_textbook a a dim LD LD lgc G G PS dim == 0.
 Proof. intros. unfold dkl_wishart_textbook. ring. Qed.
+
+(* ===================================================================== 11. Segmentation.vm_step / normalized_external_field *)
+From NV.Generated Require Import SegFrags.
+From NV.C13 Require Import SegModel Proofs7.
+
+(* Translating every channel by its own offset translates the fitted class mean by that offset
+   and leaves every (co)variance entry unchanged - for any number of voxels, any weights whose
+   total reaches the `nonzero` floor (a populated class).  Offsets of the two channels independent. *)
+Theorem vm_step_translation_equivariant :
+  forall P xa xb ca cb, length xa = length P -> length xb = length P -> seg_floor <= qsum P ->
+  vm_mu P (shift ca xa) == vm_mu P xa + ca /\
+  vm_cov P (shift ca xa) (shift cb xb) == vm_cov P xa xb.
+Proof.
+  intros P xa xb ca cb Ha Hb Hs. split;
+  [apply vm_mu_translation; assumption|apply vm_cov_translation; assumption].
+Qed.
+Print Assumptions vm_step_translation_equivariant.
+
+(* Rescaling each channel by its own factor rescales the mean by the factor and the covariance
+   entry (a, b) by the product of the two factors - no hypothesis at all (any weights, also an
+   empty class, any lengths, any factors incl. 0 and negative ones). *)
+Theorem vm_step_axis_scaling_equivariant :
+  forall P xa xb ca cb,
+  vm_mu P (scale ca xa) == ca * vm_mu P xa /\
+  vm_cov P (scale ca xa) (scale cb xb) == ca * cb * vm_cov P xa xb.
+Proof. intros P xa xb ca cb. split; [apply vm_mu_scaling|apply vm_cov_scaling]. Qed.
+Print Assumptions vm_step_axis_scaling_equivariant.
+
+(* The fitted covariance matrix is symmetric and its diagonal (the class variances) non-negative
+   for non-negative posterior weights; Z is never 0 (floor read from the source). *)
+Theorem vm_step_covariance_symmetric_nonneg :
+  forall P xa xb, vm_cov P xa xb == vm_cov P xb xa /\ (nonneg P -> 0 <= vm_cov P xa xa) /\ 0 < vm_Z P.
+Proof. intros P xa xb. split; [apply vm_cov_sym|split; [apply vm_var_nonneg|apply vm_Z_pos]]. Qed.
+Print Assumptions vm_step_covariance_symmetric_nonneg.
+
+(* Relabelling the classes (selecting / permuting the weight columns by any index map) relabels the
+   fitted (mean, covariance) pairs the same way: the classes are fitted independently. *)
+Theorem vm_step_label_equivariant :
+  forall (f : nat -> nat) cols chans idx,
+  vm_step_model (map (fun j => nth (f j) cols []) idx) chans =
+  map (fun j => nth (f j) (vm_step_model cols chans) (vm_class [] chans)) idx.
+Proof. exact vm_step_relabel. Qed.
+Print Assumptions vm_step_label_equivariant.
+
+(* normalized_external_field on the whole voxels x classes matrix, with the shift READ FROM THE
+   SOURCE (per-voxel maximum): every voxel's row is a point of the simplex whatever the other
+   voxels are (far-away outliers included: only exp >= 0 and exp(0) = 1 are used), and the row of
+   voxel i is a function of the log field of voxel i alone. *)
+Theorem nef_matrix_simplex :
+  forall (EXP : Q -> Q) lef, (forall x, 0 <= EXP x) -> (forall x, x == 0 -> EXP x == 1) ->
+  Forall (fun row => row <> []) lef ->
+  Forall simplex (nef_matrix EXP lef) /\
+  (forall i, nth i (nef_matrix EXP lef) [] = nef_row EXP (nth i lef [])).
+Proof.
+  intros EXP lef HE H1 Hne. split; [apply nef_matrix_rows_simplex; assumption|].
+  intros i. apply nef_matrix_row_local.
+Qed.
+Print Assumptions nef_matrix_simplex.
+
+(* non-vacuity: two voxels, weights (3/4, 1/4): intensities 1, 5 -> mean 2, variance 3;
+   shifted by 10 -> mean 12, variance 3; the outlier row of a 2-voxel field is (0, 1) when exp
+   underflows to 0 at -1000 *)
+Example vm_step_example :
+  vm_mu [3#4; 1#4] [1; 5] == 2 /\ vm_cov [3#4; 1#4] [1; 5] [1; 5] == 3 /\
+  vm_mu [3#4; 1#4] (shift 10 [1; 5]) == 12 /\ vm_cov [3#4; 1#4] (shift 10 [1; 5]) (shift 10 [1; 5]) == 3 /\
+  seg_floor <= qsum [3#4; 1#4].
+Proof. vm_compute. repeat split; discriminate. Qed.
+
+Example nef_matrix_outlier_example :
+  nef_matrix (fun x => if Qeq_bool x 0 then 1 else 0) [[0; 0]; [-2000; -1000]] = [[1 # 2; 1 # 2]; [0 / 1; 1 / 1]].
+Proof. reflexivity. Qed.
